@@ -1,7 +1,8 @@
 """C07 -- the cache view reflects its own pending operations (read-your-writes).
 See checks/cache_common.py and spec/cache/Cache.tla (ViewEqIdeal).  This check
 reports the view clauses: after every mutating call the six read-type calls on
-every path answer as the ideal tree does."""
+every path answer as the ideal tree does; a Reader must return what ReadFile returns;
+a child view of the cache must answer exactly as the cache does for the same node."""
 import vlib
 from checks import cache_common
 
